@@ -255,12 +255,13 @@ def run_equality(payload):
                          "found": bool(ok), "same_as": it.get("same_as", 0)})
             objs.append(c if ok else None)
         n = len(objs)
-        eq = [[False] * n for _ in range(n)]
-        heq = [[False] * n for _ in range(n)]
-        req = [[False] * n for _ in range(n)]
         raised = ""
         rt = []
-        try:
+
+        def matrices():
+            eq = [[False] * n for _ in range(n)]
+            heq = [[False] * n for _ in range(n)]
+            req = [[False] * n for _ in range(n)]
             for i in range(n):
                 for j in range(n):
                     if objs[i] is None or objs[j] is None:
@@ -271,6 +272,25 @@ def run_equality(payload):
                         req[i][j] = Resource(objs[i]) == Resource(objs[j]) and hash(Resource(objs[i])) == hash(Resource(objs[j]))
                     else:
                         req[i][j] = eq[i][j]
+            return eq, heq, req
+        eq, heq, req = [[False] * n for _ in range(n)], [[False] * n for _ in range(n)], [[False] * n for _ in range(n)]
+        second = None
+        try:
+            eq, heq, req = matrices()
+            if group.get("resolve_then_again"):
+                # history: the objects (already hashed and compared) go through resolve_citations; equality is about their
+                # CURRENT volume / page / normalised reporter, so the identities are read off again afterwards
+                from eyecite import resolve_citations
+                resolve_citations([c for c in objs if c is not None])
+                rows2 = []
+                for r0, c in zip(rows, objs):
+                    r2 = dict(r0)
+                    if c is not None and r0["key"] != "ph" and hasattr(c, "corrected_reporter"):
+                        r2["key"] = f"{c.groups.get('volume')}|{c.groups.get('page')}|{c.corrected_reporter()}"
+                    rows2.append(r2)
+                e2, h2, q2 = matrices()
+                second = {"rows": rows2, "eq": e2, "heq": h2, "req": q2, "rt": [{"checked": False, "one": True, "equal": True, "fixed": True}] * n,
+                          "raised": "", "label": group.get("label", "") + " [after resolve_citations]"}
             for i, it in enumerate(group["members"]):
                 r = {"checked": False, "one": True, "equal": True, "fixed": True}
                 if it.get("roundtrip") and objs[i] is not None:
@@ -281,7 +301,8 @@ def run_equality(payload):
                 rt.append(r)
         except Exception as ex:  # noqa: BLE001
             raised = f"{type(ex).__name__}: {ex}"
-        res.append({"rows": rows, "eq": eq, "heq": heq, "req": req, "rt": rt, "raised": raised, "label": group.get("label", "")})
+        res.append({"rows": rows, "eq": eq, "heq": heq, "req": req, "rt": rt, "raised": raised, "label": group.get("label", ""),
+                    **({"second": second} if second else {})})
     return res
 
 
